@@ -162,6 +162,12 @@ def _analyze_node(node, config: Config, cwd: Path, *, remote: bool = False) -> D
         if hasattr(node, "word") and node.word:
             decisions.extend(_analyze_word_parts(node.word, config, cwd, remote=remote))
         for pattern in node.patterns:
+            # Patterns are expanded before matching: case x in $(cmd)) ...
+            pattern_text = getattr(pattern, "pattern", None)
+            if pattern_text and isinstance(pattern_text, str):
+                decisions.extend(
+                    _analyze_string_cmdsubs(pattern_text, config, cwd, remote=remote)
+                )
             if hasattr(pattern, "body") and pattern.body:
                 decisions.append(
                     _analyze_node(pattern.body, config, cwd, remote=remote)
@@ -558,12 +564,12 @@ def _analyze_cond_node(
     kind = getattr(node, "kind", None)
     if kind == "unary-test":
         # -f file, -z string - check operand for cmdsubs
-        return _analyze_word_parts(node.operand, config, cwd, remote=remote)
+        return _analyze_cond_operand(node.operand, config, cwd, remote=remote)
     elif kind == "binary-test":
         # $a == $b - check both operands for cmdsubs
         decisions = []
-        decisions.extend(_analyze_word_parts(node.left, config, cwd, remote=remote))
-        decisions.extend(_analyze_word_parts(node.right, config, cwd, remote=remote))
+        decisions.extend(_analyze_cond_operand(node.left, config, cwd, remote=remote))
+        decisions.extend(_analyze_cond_operand(node.right, config, cwd, remote=remote))
         return decisions
     elif kind in ("cond-and", "cond-or"):
         # expr1 && expr2, expr1 || expr2 - recurse both sides
@@ -577,6 +583,20 @@ def _analyze_cond_node(
     elif kind == "cond-paren":
         # ( expr ) - recurse into inner
         return _analyze_cond_node(node.inner, config, cwd, remote=remote)
+    return []
+
+
+def _analyze_cond_operand(
+    word, config: Config, cwd: Path, *, remote: bool = False
+) -> list[Decision]:
+    """Analyze a [[ ]] operand: its parts, or its raw text when it has none
+    (-v a[$(cmd)] arrives as plain text, and bash evaluates the subscript)."""
+    if getattr(word, "parts", None):
+        return _analyze_word_parts(word, config, cwd, remote=remote)
+    value = getattr(word, "value", None)
+    if value and isinstance(value, str) and "'" not in value:
+        # (text containing single quotes is literal there; nothing to expand)
+        return _analyze_string_cmdsubs(value, config, cwd, remote=remote)
     return []
 
 
